@@ -245,6 +245,23 @@ class Ctx:
             self._record(self._best[1])
         return
 
+    def collect(self, name, strategy, k):
+        """k seeded examples of a strategy (payloads for enumerated case spaces)."""
+        import hypothesis
+        from hypothesis import HealthCheck, Phase, given, settings
+
+        out = []
+        sd = (self.seed * 1000003 + self.shard * 7919 + _stable("collect:" + name)) & 0x7FFFFFFF
+
+        @hypothesis.seed(sd)
+        @settings(max_examples=k, database=None, deadline=None, suppress_health_check=list(HealthCheck), phases=(Phase.generate,))
+        @given(strategy)
+        def t(x):
+            out.append(x)
+
+        t()
+        return out
+
     # ------------------------------------------------------------------ output
     def partial(self):
         return {
